@@ -28,30 +28,31 @@ const (
 type TypeShape struct {
 	ET *ErrType
 
-	CauseField   *types.Var // field returned by Cause()/Unwrap() error
-	CauseWhy     string     // non-empty when Cause/Unwrap disagree or are unrecognised
-	MultiField   *types.Var // field returned by Unwrap() []error
-	HasCause     bool
-	HasUnwrap    bool
-	ErrShape     string
-	ErrField     *types.Var // text field for PrefixCause/Own/ByMessageType
-	ErrSep       string
-	ErrWhy       string
-	Formatter    *ssa.Function // SafeFormatError or FormatError
-	FmtSafe      bool          // it is SafeFormatError
-	HeadFields   []*types.Var  // fields printed outside the Detail() region
-	HeadOther    []string      // other things printed outside the region
-	HeadUncond   bool          // some head print is unconditional
-	DetailPrints int           // Print*/Printf calls inside the Detail() region
-	DetailFields map[*types.Var]bool
-	DetailDirect map[*types.Var]bool // fields handed to a detail Print/Printf as values (not as text rendered beforehand)
-	RetNil       bool                // formatter has a return nil
-	RetCause     bool                // formatter has a return of the cause field
-	RetOther     bool
-	RetInDetail  bool                // some return of the formatter sits inside the p.Detail() region
-	MsgTypeWhy   string              // ByMessageType: problem with the guards on the message type
-	Inherited    *types.Named        // methods promoted from this embedded error type
-	ErrFields    map[*types.Var]bool // receiver fields read by Error()
+	CauseField       *types.Var // field returned by Cause()/Unwrap() error
+	CauseWhy         string     // non-empty when Cause/Unwrap disagree or are unrecognised
+	MultiField       *types.Var // field returned by Unwrap() []error
+	HasCause         bool
+	HasUnwrap        bool
+	ErrShape         string
+	ErrField         *types.Var // text field for PrefixCause/Own/ByMessageType
+	ErrSep           string
+	ErrWhy           string
+	Formatter        *ssa.Function // SafeFormatError or FormatError
+	FmtSafe          bool          // it is SafeFormatError
+	HeadFields       []*types.Var  // fields printed outside the Detail() region
+	HeadOther        []string      // other things printed outside the region
+	HeadUncond       bool          // some head print is unconditional
+	DetailPrints     int           // Print*/Printf calls inside the Detail() region
+	DetailFields     map[*types.Var]bool
+	DetailDirect     map[*types.Var]bool // fields handed to a detail Print/Printf as values (not as text rendered beforehand)
+	DetailCauseGuard string              // non-empty: a detail print is guarded by a condition computed from the cause
+	RetNil           bool                // formatter has a return nil
+	RetCause         bool                // formatter has a return of the cause field
+	RetOther         bool
+	RetInDetail      bool                // some return of the formatter sits inside the p.Detail() region
+	MsgTypeWhy       string              // ByMessageType: problem with the guards on the message type
+	Inherited        *types.Named        // methods promoted from this embedded error type
+	ErrFields        map[*types.Var]bool // receiver fields read by Error()
 }
 
 // GetShapes computes (once) the shapes of every census error type.
@@ -83,7 +84,7 @@ func GetShapes(c *core.Ctx) map[*types.Named]*TypeShape {
 					}
 					if sh.Formatter == nil && esh.Formatter != nil {
 						sh.Formatter, sh.FmtSafe, sh.HeadFields, sh.HeadOther, sh.HeadUncond = esh.Formatter, esh.FmtSafe, esh.HeadFields, esh.HeadOther, esh.HeadUncond
-						sh.DetailPrints, sh.DetailFields, sh.DetailDirect, sh.RetNil, sh.RetCause, sh.RetOther = esh.DetailPrints, esh.DetailFields, esh.DetailDirect, esh.RetNil, esh.RetCause, esh.RetOther
+						sh.DetailPrints, sh.DetailFields, sh.DetailDirect, sh.DetailCauseGuard, sh.RetNil, sh.RetCause, sh.RetOther = esh.DetailPrints, esh.DetailFields, esh.DetailDirect, esh.DetailCauseGuard, esh.RetNil, esh.RetCause, esh.RetOther
 						sh.Inherited = en
 					}
 				}
@@ -500,6 +501,13 @@ func classifyFormatter(p *load.Program, et *ErrType, sh *TypeShape) {
 					}
 					if inDetail(x.Block()) {
 						sh.DetailPrints++
+						if f == fn && sh.CauseField != nil {
+							for _, l := range dominatingLits(x.Block()) {
+								if dependsOnRecvField(fn, l.V, sh.CauseField, map[ssa.Value]bool{}, 0) {
+									sh.DetailCauseGuard = "the print at " + p.Pos(x.Pos()) + " is guarded by " + describeVal(l.V)
+								}
+							}
+						}
 						for _, v := range vals {
 							markFields(fn, f, v, sh.DetailFields, 0)
 							if v != nil && f == fn {
@@ -775,4 +783,33 @@ func unwrapSafe(v ssa.Value) ssa.Value {
 		break
 	}
 	return stripIface(v)
+}
+
+// dependsOnRecvField: v is computed from the receiver's field fld (through calls, operators, merges).
+func dependsOnRecvField(fn *ssa.Function, v ssa.Value, fld *types.Var, seen map[ssa.Value]bool, d int) bool {
+	if v == nil || seen[v] || d > 16 {
+		return false
+	}
+	seen[v] = true
+	if pth := recvFieldPath(fn, v); len(pth) >= 1 && pth[0] == fld {
+		return true
+	}
+	in, ok := v.(ssa.Instruction)
+	if !ok {
+		return false
+	}
+	if al, isAlloc := v.(*ssa.Alloc); isAlloc && al.Referrers() != nil {
+		// a local whose address is taken: what is stored into it
+		for _, r := range *al.Referrers() {
+			if st, isSt := r.(*ssa.Store); isSt && st.Addr == ssa.Value(al) && dependsOnRecvField(fn, st.Val, fld, seen, d+1) {
+				return true
+			}
+		}
+	}
+	for _, op := range in.Operands(nil) {
+		if *op != nil && dependsOnRecvField(fn, *op, fld, seen, d+1) {
+			return true
+		}
+	}
+	return false
 }
